@@ -14,7 +14,7 @@ def sh(cmd, cwd="/", env=None, timeout=3000):
 DETECT_ONLY = "--detect-only" in sys.argv
 if DETECT_ONLY:
     sys.argv.remove("--detect-only")
-    WT, EV = "/tmp/mutdetect_wt", "/tmp/mutdetect_ev"
+    WT, EV = "/tmp/mutdetect_wt" + os.environ.get("MD_SUFFIX", ""), "/tmp/mutdetect_ev" + os.environ.get("MD_SUFFIX", "")
 
 
 def main():
